@@ -100,3 +100,46 @@ def _nm(e):
     if e[0] == 'call':
         return e[1].split('::')[-1] + '()'
     return e[0]
+
+
+CONTAINER_KIND = {'streams': 'stream', 'topics': 'topic', 'partitions': 'partition', 'users': 'user', 'consumer_groups': 'group', 'clients': 'client',
+                  'streams_ids': None, 'topics_ids': None, 'consumer_groups_ids': None}
+MAP_OPS = ('get', 'get_mut', 'remove', 'insert', 'contains_key', 'entry')
+
+
+def check_map_keys(ctx, rep, rid, scope_prefixes):
+    """one obligation per map operation `X.<entities>.get/remove/insert(key ..)` whose key expression has a known id kind:
+    the key kind is the kind of the entities the map holds"""
+    n = 0
+    for d in sorted(ctx.facts.body_defs()):
+        if not any(in_crate(d, p) for p in scope_prefixes):
+            continue
+        raw = ctx.facts.raw_body(d)
+        if not any((bl.get('term') or {}).get('t') == 'call' and ((bl['term'].get('fn') or '').split('::')[-1] in MAP_OPS) for bl in raw['blocks']):
+            continue
+        b = ctx.body(d)
+        for c in b.calls:
+            if not is_user_call(c) or (c.fn or '').split('::')[-1] not in MAP_OPS or len(c.args) < 2:
+                continue
+            if not any(w in (c.fn or '') for w in ('HashMap', 'AHashMap', 'BTreeMap', 'DashMap')):
+                continue
+            recv = strip_adaptors(b.expr_operand(c.args[0]))
+            if recv[0] != 'field' or CONTAINER_KIND.get(recv[2]) is None:
+                # a named local/param that holds the map (`topics`, `groups`)
+                nm = recv[2] if recv[0] == 'local' else (recv[1] if recv[0] in ('param', 'upvar') else None)
+                ck = CONTAINER_KIND.get(nm) if nm else None
+                cname = nm
+            else:
+                ck = CONTAINER_KIND[recv[2]]
+                cname = recv[2]
+            if ck is None:
+                continue
+            ke = b.expr_operand(c.args[1])
+            kk = expr_kind(ke)
+            if kk is None:
+                continue
+            n += 1
+            ok = kk == ck
+            rep.ob(rid, ctx.user_fn_of(d), '%s.%s(%s)' % (cname, (c.fn or '').split('::')[-1], _nm(ke)), ok, c.where(),
+                   None if ok else 'the map of %ss `%s` is accessed with `%s`, which is a %s id' % (ck, cname, render(ke)[:80], kk))
+    return n
